@@ -1,9 +1,9 @@
 SPECIFICATION MCSpec
 CONSTANTS
   Relax = {}
-  Mode = "honest"
+  Mode = "revoked"
   MaxBlocks = 3
-  Layouts = {"plain"}
+  Layouts = {"plain", "fee_after", "fee_after_change", "fee_before", "fee_between", "extra_out", "two_fees"}
   MaxUnwind = 0
   Features = {}
   Defect = "none"
